@@ -461,6 +461,12 @@ fn build_seeds() -> BTreeMap<&'static str, Vec<Vec<u8>>> {
         let k = ProtocolKey::new(p);
         add("key:MkProof", k.to_json_hex().unwrap().into_bytes());
         add("key:MkProof", k.to_bytes_hex().unwrap().into_bytes());
+        // leaves requested in another order than their order in the tree (the proof keeps the request order)
+        if n >= 3 {
+            let p = t.compute_proof(&[leaves[n - 1].clone(), leaves[0].clone(), leaves[1].clone()]).unwrap();
+            add("mk:MKProof", p.to_bytes().unwrap());
+            add("key:MkProof", ProtocolKey::new(p).to_bytes_hex().unwrap().into_bytes());
+        }
     }
     {
         let mut entries_ = vec![];
@@ -473,6 +479,8 @@ fn build_seeds() -> BTreeMap<&'static str, Vec<Vec<u8>>> {
         let map = MKMap::<BlockRange, MKMapNode<BlockRange, MKTreeStoreInMemory>, MKTreeStoreInMemory>::new(&entries_).unwrap();
         let p = map.compute_proof(&[MKTreeNode::from("tx-0-1".to_string()), MKTreeNode::from("tx-2-3".to_string())]).unwrap();
         add("mk:MKMapProof", p.to_bytes().unwrap());
+        let unordered = map.compute_proof(&[MKTreeNode::from("tx-2-3".to_string()), MKTreeNode::from("tx-0-2".to_string()), MKTreeNode::from("tx-0-0".to_string()), MKTreeNode::from("tx-1-1".to_string())]).unwrap();
+        add("mk:MKMapProof", unordered.to_bytes().unwrap());
         let k = ProtocolKey::new(p);
         add("key:MkMapProof", k.to_json_hex().unwrap().into_bytes());
         add("key:MkMapProof", k.to_bytes_hex().unwrap().into_bytes());
@@ -571,6 +579,14 @@ fn case_fn(c: &Case) -> Report {
         }
         Ok(Ok(reenc)) => {
             rep.label("accepted");
+            // honest values round-trip: for the entries whose seeds are written by the current canonical encoder, the
+            // decoded value re-encodes to the very bytes it came from (decode(encode(v)) == v)
+            if names.is_empty() && entry.name.starts_with("mk:") && reenc != data {
+                rep.violation(
+                    format!("honest-roundtrip-differs:{}", entry.name),
+                    format!("{}: the honest encoding #{} decodes to a value that encodes differently; input {} re-encoded {}", entry.name, c.seed_idx, input_hex(), hex::encode(&reenc).chars().take(400).collect::<String>()),
+                );
+            }
             // fixed point: decode(encode(decode(x))) == decode(x)
             match catch(|| (entry.decode)(&reenc)) {
                 Ok(Ok(again)) if again == reenc => {}
